@@ -438,6 +438,21 @@ def do_replay(pid, path):
         log(r.stdout)
         log("(expected differences at the time of the violation: %s)" % json.dumps(case.get("diffs"))[:1500])
         return 0
+    if case.get("kind") == "corrupt":
+        import subprocess
+        os.environ.update(SAN_ENV)
+        bad = vlib.build("asan", harness="ezcorrupt")
+        d = vlib.scratch("rp"); os.makedirs(d + "/seeds")
+        open(d + "/seeds/seed.%d" % case["mutation"]["seed"], "wb").write(bytes(case["seed_bytes"]))
+        r = subprocess.run([bad, "--seeds", d + "/seeds", "--dir", d + "/w"], input=json.dumps(case["mutation"]) + "\n", stdout=subprocess.PIPE, stderr=subprocess.PIPE, text=True)
+        log(r.stdout); log(r.stderr[-4000:])
+        return 0
+    if case.get("kind") == "fault":
+        ez = vlib.build("plain")
+        e = case["event"]
+        evs, raw = vlib.run_ops(ez, [dict(o, post=0) for o in case["build_ops"]] + [{"op": "FaultSweep", "label": e["obj"], "kinds": [] if e["kind"] == "fsize" else [e["kind"]], "ks": [e["k"]] if e["kind"] == "fsize" else []}])
+        log(raw[-2000:])
+        return 0
     raise Infra("unknown replay kind in %s" % path)
 
 def main():
